@@ -70,8 +70,10 @@ func (q *c10Parser) block() []c10Stmt {
 		switch c {
 		case 'E', 'P', 'C':
 			out = append(out, c10Stmt{Op: c, N: q.num()})
-		case 'R', 'X', 'B', 'K', 'V':
+		case 'R', 'X', 'B', 'K', 'V', 'W', 'u', 'n':
 			out = append(out, c10Stmt{Op: c})
+		case 'Y', 'Z':
+			out = append(out, c10Stmt{Op: c, N: q.num()})
 		case 'T':
 			a := q.bracket()
 			b := q.bracket()
@@ -117,7 +119,65 @@ func c10Parse(s string) (c10Prog, bool) {
 		break
 	}
 
-	return p, q.pos == len(q.s)
+	return p, q.pos == len(q.s) && c10Valid(p)
+}
+
+// c10Kind: 'u' (one unnamed result), 'n' (one named result) or 0 (no result): the kind marker is
+// the first pseudo-statement of a function body.
+func c10Kind(f []c10Stmt) byte {
+	if len(f) > 0 && (f[0].Op == 'u' || f[0].Op == 'n') {
+		return f[0].Op
+	}
+
+	return 0
+}
+
+// c10Valid: kind markers only at the start of a function; return-with-expression statements only
+// directly in a function that has a result (not in a deferred closure); `Z<f>` and `C<f>` name an
+// existing function, `Z<f>` one that has a result.
+func c10Valid(p c10Prog) bool {
+	var ok func(b []c10Stmt, kind byte, top bool) bool
+
+	ok = func(b []c10Stmt, kind byte, top bool) bool {
+		for i, s := range b {
+			switch s.Op {
+			case 'u', 'n':
+				if !top || i != 0 {
+					return false
+				}
+			case 'Y', 'W':
+				if kind == 0 {
+					return false
+				}
+			case 'Z':
+				if kind == 0 || s.N >= len(p) || c10Kind(p[s.N]) == 0 {
+					return false
+				}
+			case 'C':
+				if s.N >= len(p) {
+					return false
+				}
+			case 'D':
+				if !ok(s.A, 0, false) {
+					return false
+				}
+			case 'T', 'L':
+				if !ok(s.A, kind, false) || !ok(s.B, kind, false) {
+					return false
+				}
+			}
+		}
+
+		return true
+	}
+
+	for _, f := range p {
+		if !ok(f, c10Kind(f), true) {
+			return false
+		}
+	}
+
+	return true
 }
 
 // ---------------------------------------------------------------- generator
@@ -130,6 +190,7 @@ type c10Gen struct {
 	maxDeep int
 	budget  int
 	goOnly  bool // no try / raise: the program is also a Go program
+	kinds   []byte // per function: 0 no result, 'u' one unnamed result, 'n' one named result
 }
 
 // ctx of generation: which function we are in, whether a loop of THIS function encloses the
@@ -142,6 +203,7 @@ type c10Where struct {
 	inCatch bool // directly in a catch block that sits inside a loop of this function
 	inTry   bool // inside a try body of this function (a later raise is caught here)
 	depth   int
+	kind    byte // result kind of the function whose body this is (0 inside a deferred closure)
 }
 
 func (g *c10Gen) emit() c10Stmt {
@@ -187,7 +249,7 @@ func (g *c10Gen) stmt(w c10Where) []c10Stmt {
 	}
 
 	for {
-		switch k := g.r.Intn(21); {
+		switch k := g.r.Intn(23); {
 		case k < 3:
 			return []c10Stmt{g.emit()}
 		case k < 5 && !g.goOnly:
@@ -204,7 +266,7 @@ func (g *c10Gen) stmt(w c10Where) []c10Stmt {
 			return []c10Stmt{{Op: 'T', A: body, B: cat}, g.emit()}
 		case k < 13 && deepOK:
 			d := in
-			d.inLoop, d.inDefer, d.inCatch, d.inTry = false, true, false, false
+			d.inLoop, d.inDefer, d.inCatch, d.inTry, d.kind = false, true, false, false, 0
 			body := g.block(d, 0)
 
 			if g.r.Intn(3) == 0 {
@@ -235,8 +297,91 @@ func (g *c10Gen) stmt(w c10Where) []c10Stmt {
 			return []c10Stmt{{Op: 'V'}}
 		case k == 20 && deepOK && !g.goOnly:
 			return g.unwindShape(in)
+		case k > 20 && w.kind != 0:
+			return []c10Stmt{g.retExpr(w)}
 		}
 	}
+}
+
+// retExpr is a return statement with an expression: a call of a later function that has a result
+// (it may emit, raise, panic, recover, ...), `mkv(k)` (an observable effect), or `1 / zero`.
+func (g *c10Gen) retExpr(w c10Where) c10Stmt {
+	var callees []int
+
+	for f := w.fn + 1; f < g.nfuncs; f++ {
+		if g.kinds[f] != 0 {
+			callees = append(callees, f)
+		}
+	}
+
+	switch k := g.r.Intn(8); {
+	case k < 5 && len(callees) > 0:
+		return c10Stmt{Op: 'Z', N: callees[g.r.Intn(len(callees))]}
+	case k == 7 && !g.goOnly:
+		return c10Stmt{Op: 'W'}
+	}
+
+	g.marker++
+
+	return c10Stmt{Op: 'Y', N: g.marker}
+}
+
+// retShape is the body of a function with a result, from the family "0..3 deferred calls, then a
+// return statement with an expression, under a try of the same function or not, in a loop or not;
+// the function goes on after the try":
+//
+//	defer ...            0..3, ordinary deferred closures (emit / recover / raise / panic ...)
+//	try {                optional
+//	    for ... {        optional
+//	        return <expr>
+//	    }
+//	} catch { ... }
+//	...                  the ordinary generator; the body ends with the implicit bare return
+func (g *c10Gen) retShape(w c10Where) []c10Stmt {
+	var out []c10Stmt
+
+	in := w
+	in.depth += 2
+
+	for n := g.r.Intn(4); n > 0; n-- {
+		out = append(out, g.some(in)...)
+
+		d := in
+		d.inLoop, d.inDefer, d.inCatch, d.inTry, d.kind = false, true, false, false, 0
+		body := []c10Stmt{g.emit()}
+
+		switch g.r.Intn(4) {
+		case 0:
+			body = append([]c10Stmt{{Op: 'V'}}, body...)
+		case 1:
+			body = append(body, g.some(d)...)
+		}
+
+		out = append(out, c10Stmt{Op: 'D', A: body})
+	}
+
+	cur := append(g.some(in), g.retExpr(w))
+
+	if g.r.Intn(4) == 0 {
+		g.loopID++
+		cur = []c10Stmt{{Op: 'L', ID: g.loopID, N: 1 + g.r.Intn(2), A: append(cur, g.emit())}}
+	}
+
+	if !g.goOnly && g.r.Intn(2) == 0 {
+		cur = []c10Stmt{{Op: 'T', A: cur, B: append(g.some(in), g.emit())}}
+	}
+
+	out = append(out, cur...)
+	out = append(out, g.emit())
+	out = append(out, g.some(in)...)
+
+	if g.r.Intn(3) == 0 {
+		out = append(out, g.retExpr(w))
+	}
+
+	g.budget -= 4
+
+	return out
 }
 
 // leave is a break or a continue.
@@ -339,9 +484,35 @@ func (g *c10Gen) unwindShape(w c10Where) []c10Stmt {
 func c10Generate(r *rand.Rand, maxDeep int, goOnly bool) c10Prog {
 	g := &c10Gen{r: r, nfuncs: 1 + r.Intn(4), maxDeep: 1 + r.Intn(maxDeep), budget: 14 + r.Intn(30+5*maxDeep), goOnly: goOnly}
 	p := make(c10Prog, g.nfuncs)
+	g.kinds = make([]byte, g.nfuncs)
+
+	for f := range g.kinds {
+		switch k := r.Intn(10); {
+		case k < 3 && !goOnly:
+			g.kinds[f] = 'u' // a Go program never gets unnamed results: Ego's rule for them is its own
+		case k < 6:
+			g.kinds[f] = 'n'
+		}
+	}
 
 	for f := 0; f < g.nfuncs; f++ {
-		p[f] = g.block(c10Where{fn: f}, 1)
+		w := c10Where{fn: f, kind: g.kinds[f]}
+
+		if g.kinds[f] == 0 {
+			p[f] = g.block(w, 1)
+
+			continue
+		}
+
+		var body []c10Stmt
+
+		if r.Intn(2) == 0 {
+			body = g.retShape(w)
+		} else {
+			body = g.block(w, 1)
+		}
+
+		p[f] = append([]c10Stmt{{Op: g.kinds[f]}}, body...)
 	}
 
 	return p
